@@ -613,6 +613,26 @@ func TestCheck(t *testing.T) {
 	pool := vlib.NewPool()
 	pool.CaseTimeout = 3 * time.Minute
 	defer pool.Close()
+	// Wall-clock budget (thorough tier: bound 3 is some 10^7 scripts): when it runs out the search stops, the run
+	// reports what was completed and says exhaustive=false. It is an internal deadline, never a verdict.
+	budget := 20 * time.Minute
+	if runv.Thorough() {
+		budget = 75 * time.Minute
+	}
+	if v := os.Getenv("VERIF_C08_BUDGET"); v != "" {
+		if d, err := time.ParseDuration(v); err == nil {
+			budget = d
+		}
+	}
+	deadline := time.Now().Add(budget)
+	outOfTime := false
+	pool.Abort = func() bool {
+		if time.Now().After(deadline) {
+			outOfTime = true
+		}
+		return outOfTime
+	}
+	completed := map[string]int{} // configuration -> deepest deviation level fully explored
 	evals := 0
 	unrealised := 0
 	var unrealisedSamples []any
@@ -620,15 +640,32 @@ func TestCheck(t *testing.T) {
 	var samples []any
 	maxPoints := 0
 	perCfg := []any{}
-	for _, cfg := range cfgs {
-		frontier := []Case{{Cfg: cfg}}
-		cfgEvals := 0
-		outcomes := map[string]int{}
-		bound := bound
-		if cfg.Leaser == "consul" {
-			bound--
-		}
-		for level := 0; level <= bound && len(frontier) > 0; level++ {
+	// Iterative deepening across all configurations: every configuration completes deviation level k before any starts
+	// level k+1, so that a budget that runs out cuts the deepest level only.
+	frontiers := make([][]Case, len(cfgs))
+	cfgEvalsAll := make([]int, len(cfgs))
+	outcomesAll := make([]map[string]int, len(cfgs))
+	levelsDone := make([]int, len(cfgs))
+	for ci, cfg := range cfgs {
+		frontiers[ci] = []Case{{Cfg: cfg}}
+		outcomesAll[ci] = map[string]int{}
+		levelsDone[ci] = -1
+	}
+	stop := false
+	for level := 0; level <= bound && !stop; level++ {
+		for ci, cfg := range cfgs {
+			cbound := bound
+			if cfg.Leaser == "consul" {
+				cbound--
+			}
+			frontier := frontiers[ci]
+			if level > cbound || len(frontier) == 0 {
+				if level <= cbound && len(frontier) == 0 && levelsDone[ci] == level-1 {
+					levelsDone[ci] = level
+				}
+				continue
+			}
+			outcomes := outcomesAll[ci]
 			var next []Case
 			cur := frontier
 			for attempt := 0; attempt < 4 && len(cur) > 0; attempt++ {
@@ -640,7 +677,7 @@ func TestCheck(t *testing.T) {
 				last := attempt == 3
 				pool.Run(anyCases, func(i int, out json.RawMessage, crash *vlib.Crash, flaky bool) {
 					evals++
-					cfgEvals++
+					cfgEvalsAll[ci]++
 					if flaky {
 						runv.HarnessError("case crashed once and passed on re-run: %+v", cur[i])
 					}
@@ -679,7 +716,7 @@ func TestCheck(t *testing.T) {
 					if len(samples) < 6 && len(cur[i].Prefix) > 0 && evals%301 == 0 {
 						samples = append(samples, map[string]any{"case": cur[i], "observation": r.Obs, "decision_points": len(r.Points)})
 					}
-					if level == bound {
+					if level == cbound {
 						return
 					}
 					for p := len(cur[i].Prefix); p < len(r.Points); p++ {
@@ -691,14 +728,26 @@ func TestCheck(t *testing.T) {
 				})
 				cur = again
 			}
-			frontier = next
-			if runv.NViolations() > 0 {
+			frontiers[ci] = next
+			if runv.NViolations() > 0 || outOfTime {
+				stop = true
 				break
 			}
+			levelsDone[ci] = level
 		}
-		perCfg = append(perCfg, map[string]any{"config": cfg, "scripts": cfgEvals, "outcomes": outcomes})
-		if runv.NViolations() > 0 {
-			break
+	}
+	minDone := bound
+	for ci, cfg := range cfgs {
+		perCfg = append(perCfg, map[string]any{"config": cfg, "scripts": cfgEvalsAll[ci], "outcomes": outcomesAll[ci], "deviation_levels_completed": levelsDone[ci]})
+		d := levelsDone[ci]
+		if cfg.Leaser == "consul" {
+			d++ // explored to one deviation less by design
+		}
+		if d < minDone {
+			minDone = d
+		}
+		if levelsDone[ci] >= 0 {
+			completed[fmt.Sprintf("%+v", cfg)] = levelsDone[ci]
 		}
 	}
 	if len(samples) == 0 {
@@ -711,7 +760,11 @@ func TestCheck(t *testing.T) {
 		"configurations":               len(cfgs),
 		"max_decision_points":          maxPoints,
 		"per_configuration":            perCfg,
-		"exhaustive":                   unrealised == 0 && os.Getenv("VERIF_C08_LEASER") == "",
+		"exhaustive":                   unrealised == 0 && os.Getenv("VERIF_C08_LEASER") == "" && !outOfTime,
+		"budget":                       budget.String(),
+		"budget_exhausted":             outOfTime,
+		"configurations_started":       len(completed),
+		"deviation_bound_completed":    minDone,
 		"filtered_to_leaser":           os.Getenv("VERIF_C08_LEASER"),
 		"scripts_not_realised":         unrealised,
 		"scripts_not_realised_samples": unrealisedSamples,
